@@ -45,6 +45,7 @@ type pendBuf struct {
 }
 
 type bufTracker struct {
+	noTrack bool // heap measurements: hand out plain copies, remember nothing
 	layout int
 	pad    int
 	arenas [][]byte
@@ -53,6 +54,9 @@ type bufTracker struct {
 }
 
 func (b *bufTracker) mk(k []byte) []byte {
+	if b.noTrack {
+		return append(make([]byte, 0, len(k)+2), k...)
+	}
 	var arena, key []byte
 	switch b.layout {
 	case laySpare:
